@@ -13,6 +13,10 @@
 #include <sys/stat.h>
 #include <unistd.h>
 
+#ifdef MCRT_IPC
+int __real_close(int);
+#define close __real_close
+#endif
 int __real_shm_open(const char *name, int oflag, mode_t mode);
 sem_t *__real_sem_open(const char *name, int oflag, ...);
 
@@ -20,7 +24,7 @@ sem_t *__real_sem_open(const char *name, int oflag, ...);
 static char names[MAXN][64];   /* "/dev/shm/<x>" path of each object */
 static int nnames;
 
-static void remember(const char *path)
+void ipcnames_remember(const char *path)
 {
     int i, fd;
     const char *log;
@@ -34,9 +38,10 @@ static void remember(const char *path)
     }
 }
 
+#ifndef MCRT_IPC   /* the mcrt build has its own wrappers (engine/mcrt_ipc.c) which call ipcnames_remember */
 int __wrap_shm_open(const char *name, int oflag, mode_t mode)
 {
-    if (oflag & O_CREAT) { char p[64]; snprintf(p, sizeof p, "/dev/shm/%s", name[0] == '/' ? name + 1 : name); remember(p); }
+    if (oflag & O_CREAT) { char p[64]; snprintf(p, sizeof p, "/dev/shm/%s", name[0] == '/' ? name + 1 : name); ipcnames_remember(p); }
     return __real_shm_open(name, oflag, mode);
 }
 
@@ -46,11 +51,13 @@ sem_t *__wrap_sem_open(const char *name, int oflag, ...)
     if (oflag & O_CREAT) {
         va_list ap; char p[64];
         va_start(ap, oflag); mode = va_arg(ap, mode_t); value = va_arg(ap, unsigned); va_end(ap);
-        snprintf(p, sizeof p, "/dev/shm/sem.%s", name[0] == '/' ? name + 1 : name); remember(p);
+        snprintf(p, sizeof p, "/dev/shm/sem.%s", name[0] == '/' ? name + 1 : name); ipcnames_remember(p);
         return __real_sem_open(name, oflag, mode, value);
     }
     return __real_sem_open(name, oflag);
 }
+
+#endif
 
 /* number of recorded names that still exist; fills buf with a space separated list */
 int ipcnames_live(char *buf, size_t sz)
